@@ -144,6 +144,7 @@ def fireErr (ce : CfgE) : Label → CfgE
     | .live m .idle => doWakeErr ce m
     | _ => ce
   | .cancel j => { ce with base := fire ce.base (.cancel j) }
+  | .promote j => { ce with base := fire ce.base (.promote j) }
 
 def fireE (ce : CfgE) : LabelE → CfgE
   | .fail b => { ce with failNext := b }
